@@ -31,6 +31,7 @@ struct verif_in_t {
 	short	old_events;
 	/* wait units */
 	int	w_np;
+	int	w_large;
 	short	w_revents[CAP];
 	short	w_stale[CAP];		/* what the revents fields still hold from the previous iteration */
 	int	w_ret, w_err;		/* poll()/ppoll() outcome */
@@ -120,9 +121,9 @@ __CPROVER_ensures(IMPLIES(OLD_IDX == -1 && fd->wanted_bands != 0,
 	NREG == OLD_N + 1 && SLOT_IS(OLD_N, fd)))	/* [C02,C03,C15] a descriptor that wants a band gets a slot with its fd and the mask of its wanted bands */
 /* remove */
 __CPROVER_ensures(IMPLIES(OLD_IDX != -1 && fd->wanted_bands == 0,
-	fd->u.index == -1 && NREG == OLD_N - 1))	/* [C01,C02,C03,C15,C18] a descriptor that wants nothing holds no slot (whichever slot it had, slot 0 included) */
+	fd->u.index == -1 && NREG == OLD_N - 1))	/* [C01,C02,C03,C15,C18,C08] a descriptor that wants nothing holds no slot (whichever slot it had, slot 0 included) */
 __CPROVER_ensures(IMPLIES(OLD_IDX != -1 && fd->wanted_bands == 0 && verif_last != -1,
-	SLOT_IS(OLD_IDX, &v_L)))	/* [C01,C02,C03,C15,C18] the last slot is moved into the hole, intact (fd, mask, back index), so the removed descriptor is in no live slot */
+	SLOT_IS(OLD_IDX, &v_L)))	/* [C01,C02,C03,C15,C18,C08] the last slot is moved into the hole, intact (fd, mask, back index), so the removed descriptor is in no live slot */
 /* modify */
 __CPROVER_ensures(IMPLIES(OLD_IDX != -1 && fd->wanted_bands != 0,
 	NREG == OLD_N && SLOT_IS(OLD_IDX, fd)))	/* [C02,C03,C15] mask follows the wanted bands */
@@ -130,9 +131,9 @@ __CPROVER_ensures(IMPLIES(OLD_IDX != -1 && fd->wanted_bands != 0,
 __CPROVER_ensures(IMPLIES(OLD_IDX == -1 && fd->wanted_bands == 0,
 	fd->u.index == -1 && NREG == OLD_N))	/* [C18] no slot is touched for a descriptor that has none and wants none */
 /* every other slot is as it was (ghost slot k; and the last slot unless it was moved) */
-__CPROVER_ensures(IMPLIES(verif_k != -1, SLOT_IS(verif_k, &v_K)))	/* [C02,C03,C15,C18] other descriptors' slots are unaffected */
+__CPROVER_ensures(IMPLIES(verif_k != -1, SLOT_IS(verif_k, &v_K)))	/* [C02,C03,C15,C18,C08] other descriptors' slots are unaffected */
 __CPROVER_ensures(IMPLIES(verif_last != -1 && !(OLD_IDX != -1 && fd->wanted_bands == 0),
-	SLOT_IS(verif_last, &v_L)))	/* [C02,C03,C15,C18] */
+	SLOT_IS(verif_last, &v_L)))	/* [C02,C03,C15,C18,C08] */
 __CPROVER_ensures(fd->wanted_bands == __CPROVER_old(fd->wanted_bands) && fd->fd == __CPROVER_old(fd->fd))
 ;
 
@@ -174,7 +175,7 @@ static int k_fill(struct pollfd *fds, nfds_t n, int ret, int err)
 {
 	int i;
 
-	__CPROVER_assert(fds == v_pfds && n == (nfds_t)v_state.u.poll.num_regd_fds, "[C02,C15] the wait covers exactly the dense array of registered descriptors");
+	__CPROVER_assert(fds == v_pfds && n == (nfds_t)v_state.u.poll.num_regd_fds, "[C02,C15,C03] the wait covers exactly the dense array of registered descriptors (the count is not narrowed on the way)");
 	if (ret < 0) {
 		verif_errno = err;
 		return -1;
@@ -354,3 +355,26 @@ void h_poll_init_deinit(void)
 	}
 	CANARY();
 }
+
+/* any population: the wait is interrupted, so the array is not walked and its size does not matter */
+void h_poll_wait_large(void)
+{
+	int r;
+
+	v_build_wait();
+	__CPROVER_assume(verif_in.w_large >= 0);
+	v_state.u.poll.num_regd_fds = verif_in.w_large;		/* up to INT_MAX registered descriptors */
+	verif_in.w_ret = -1; verif_in.w_err = EINTR;
+	verif_in.w_ret2 = -1; verif_in.w_err2 = EINTR;
+	if (verif_in.w_bits & 1) {
+		method = &iv_fd_poll_method_ppoll;
+		r = iv_fd_poll_ppoll(&v_state, &v_active, verif_in.w_abs_present ? &v_abs2 : NULL);
+		__CPROVER_assert(g_ppoll_calls == 1 && g_poll_calls == 0, "[C15] one ppoll");
+	} else {
+		r = iv_fd_poll_poll(&v_state, &v_active, verif_in.w_abs_present ? &v_abs2 : NULL);
+		__CPROVER_assert(g_poll_calls == 1, "[C07] one poll");
+	}
+	__CPROVER_assert(r == 1 && g_mr_bad == 0, "[C03] an interrupted wait reports nothing");
+	CANARY();
+}
+
